@@ -697,6 +697,15 @@ def isprod_rejects(p):
 # S(k) operator norm and block positivity
 # =============================================================================================
 def _sk_known(p):
+    """operator X with ||X||_S(k) known in closed form; returns (X, value); `scale` multiplies both (the norm is absolutely homogeneous)"""
+    X, val = _sk_known_unit(p)
+    sc = p.get("scale")
+    if sc is not None:
+        X, val = float(sc) * X, abs(float(sc)) * val
+    return X, val
+
+
+def _sk_known_unit(p):
     """operator X with ||X||_S(k) known in closed form; returns (X, value)"""
     import numpy as np
 
@@ -1178,6 +1187,13 @@ def cases(tier, seed):
                             add("sknorm.lower_le_known", q, ic, True)
                             if kc not in ("k=min-dim", "analytic"):
                                 add("sknorm.returns_normally", q, ic, True)
+            # operators of norm far from 1 (the bounds scale with the operator norm): non-Hermitian, Hermitian and rank-one families
+            for fam in ("product-general", "product-herm", "rank-one"):
+                for sc in (3.0, 0.2):
+                    q = dict(dims=d, k=k, family=fam, r=1, r2=m, profile="generic", seed=seed, effort=0, dimform="list", scale=sc)
+                    ic = "sk_operator_norm/%s/%s/scaled" % (fam, _eq(d))
+                    add("sknorm.upper_ge_known", q, ic, True)
+                    add("sknorm.lower_le_known", q, ic, True)
             if dA == dB:
                 q = dict(dims=d, k=k, family="shifted-pure", r=m, profile="geometric", seed=seed, effort=1, dimform="omitted")
                 add("sknorm.upper_ge_known", q, "sk_operator_norm/shifted-pure/dim=omitted", True)
